@@ -24,4 +24,12 @@ PROPS = {
     },
 }
 
+PROPS["C10"] = {
+    "harness": {"kind": "cmd", "cmd": "c10"},
+    "level_text": "Theorems for every natural-number cap (no 64-bit bound) and every environment: a submission happens only for a pending target; the replacement has the target's nonce, the client's chain id, value 0, empty data, gas 21000, destination = own address, tip = floor(110*max(tip_o,tip_s)/100) >= both tips, feeCap = max(price_o,feeCap_o)+tip >= feeCap_o+tip; any other lookup answer or a failing call yields an error and no submission. The literals 110/100/21000/0 are regenerated from CancelTx's source and pinned by a theorem. The model is tied to the real EvmClient.CancelTx over a scripted chain node (targets sent through the client first or foreign, legacy and dynamic-fee, boundary and >64-bit caps, every fault).",
+    "level_note": "Trusted: Lean kernel; differential harness as evidence model = code; go-ethereum types.Transaction accessors and London signer; mockevm. The signed raw transaction reaching the stub node is decoded, so chain id and sender are observed, not assumed.",
+    "nontrivial_rule": "distinct (tag, model observation) pairs; tag = lookup kind (+tracked when the target was first sent through the client)",
+    "assumptions": ["TransactionByHash's (tx, isPending, err) triple is the only source of the target's state"],
+}
+
 NOT_CLAIMED = {}
